@@ -113,6 +113,19 @@ def unordered(ctx):
         init = ctx.res.method(HS, pc, "__init__")
         st_ = assigns_to(init, "self._sequence")
         ctx.check(bool(st_), st_[0] if st_ else pc, "%s stores the sorted elements in its state (pickled with the proxy class name)" % proxy)
+        # the stored sequence is canonical: the OUTERMOST operation is a key-less ascending sort, of the elements
+        # themselves (orderable case) or of their digests (fallback).  Sorting by a non-injective key (str, repr, type
+        # name) leaves ties in iteration order, i.e. dependent on PYTHONHASHSEED and insertion history.
+        for a_ in st_:
+            v_ = a_.value
+            is_sorted = isinstance(v_, ast.Call) and call_name(v_) == "sorted" and kwarg(v_, "key") is None and kwarg(v_, "reverse") is None and len(v_.args) == 1
+            ctx.check(is_sorted, a_, "%s: the stored sequence is the result of a plain sorted(...)" % proxy,
+                      "%s stores `%s`: the order of the stored elements is not a key-less sort of the elements or of their digests (ties / raw iteration order depend on the hash seed)" % (proxy, unparse(v_, 90)))
+            if is_sorted and any(isinstance(x, ast.ExceptHandler) for x in ancestors(a_)):
+                src_ = v_.args[0]
+                elt = src_.elt if isinstance(src_, (ast.GeneratorExp, ast.ListComp)) else None
+                ctx.check(elt is not None and isinstance(elt, ast.Call) and call_name(elt) == "hash" and len(src_.generators) == 1 and dotted(src_.generators[0].iter) == init.args.args[1].arg, a_,
+                          "%s fallback: what is sorted are the digests of the elements of the container" % proxy, "%s fallback sorts `%s`, not the digests of the elements" % (proxy, unparse(src_, 80)))
 
 
 def seed(ctx):
@@ -174,7 +187,40 @@ def seed(ctx):
             continue
         for h in [h for t in nodes_of_type(fn, ast.Try) for h in t.handlers]:
             cs = [c for s in h.body for c in calls_in(s) if call_name(c) == "hash"]
-            ctx.check(bool(cs), h, "the unorderable fallback in %s sorts by hash(<element>) = the joblib digest" % fn._qualname, "fallback in %s does not use the digest" % fn._qualname)
+            # equivalent form: a FRESH hasher per element, `<HasherClass>(...).hash(x)` built inside the per-element
+            # expression (a hasher shared between elements carries its pickle memo from one key to the next)
+            hasher_names = {"Hasher", "NumpyHasher", "type(self)", "self.__class__"}
+            for a_ in nodes_of_type(fn, ast.Assign):
+                if len(a_.targets) == 1 and isinstance(a_.targets[0], ast.Name) and unparse(a_.value) in hasher_names:
+                    hasher_names.add(a_.targets[0].id)
+            fresh = [c for s in h.body for c in calls_in(s) if call_attr(c) == "hash" and isinstance(c.func, ast.Attribute) and isinstance(c.func.value, ast.Call) and unparse(c.func.value.func) in hasher_names
+                     and any(isinstance(x, (ast.GeneratorExp, ast.ListComp)) for x in ancestors(c))]
+            ctx.check(bool(cs) or bool(fresh), h, "the unorderable fallback in %s sorts by the joblib digest of each element (%s)" % (fn._qualname, "hash(x)" if cs else "a fresh hasher per element"),
+                      "fallback in %s does not sort by a digest computed independently for each element" % fn._qualname)
+    # constructor calls with positional arguments must hit hash_name in every class the callee may denote
+    classes = {cn: mod.classes.get(cn) for cn in ("Hasher", "NumpyHasher")}
+    first = {}
+    for cn, c_ in classes.items():
+        init = ctx.res.method(HS, c_, "__init__") if c_ is not None else None
+        first[cn] = init.args.args[1].arg if init is not None and len(init.args.args) > 1 else None
+    for q_, fn_ in mod.funcs.items():
+        local_alias = {}
+        for a_ in nodes_of_type(fn_, ast.Assign):
+            if len(a_.targets) == 1 and isinstance(a_.targets[0], ast.Name) and unparse(a_.value) in ("type(self)", "self.__class__", "Hasher", "NumpyHasher"):
+                local_alias[a_.targets[0].id] = unparse(a_.value)
+        for c in calls_in(fn_):
+            callee = unparse(c.func)
+            callee = local_alias.get(callee, callee)
+            if callee in ("Hasher", "NumpyHasher"):
+                targets = [callee]
+            elif callee in ("type(self)", "self.__class__") and q_.split(".")[0] in ("Hasher", "NumpyHasher"):
+                targets = ["Hasher", "NumpyHasher"]
+            else:
+                continue
+            if c.args:
+                ctx.check(all(first.get(t_) == "hash_name" for t_ in targets), c, "%s(<positional>) reaches hash_name in %s" % (callee, "/".join(targets)),
+                          "%s is called with a positional argument in %s, but the first parameter of %s.__init__ is `%s`: the digest algorithm is silently replaced by the default" % (
+                              callee, q_, [t_ for t_ in targets if first.get(t_) != "hash_name"][:1], [first.get(t_) for t_ in targets if first.get(t_) != "hash_name"][:1]))
 
 
 def memo(ctx):
